@@ -123,8 +123,10 @@ def to_harness_graph(c):
 # weight-valued observations by 2^k on output (exact in binary64), so a correct implementation yields the
 # observations of the unscaled case bit for bit and the Coq model / the oracles run on the unscaled integers.
 # k = -60: path-length differences far below f64::EPSILON (absolute-tolerance comparisons show);
-# k = -3: all weights below 1 (clamps / max(1.0, .) normalisers show); k = 40: large magnitudes.
-WSCALES = [-60, -60, -3, 40]
+# k = -3: all weights below 1 (clamps / max(1.0, .) normalisers show); k = -1: halves, so that the weights
+# of a graph often SUM to its number of edges without being 1 (sum-based 'unit weight' shortcuts show);
+# k = 40: large magnitudes.
+WSCALES = [-60, -3, -1, 40]
 BIGODD = 1 << 24     # weights 2^24 + {1,2,3}: exact in binary64, not representable in binary32
 
 
@@ -270,3 +272,97 @@ def all_pairs(nodes, w, weighted):
                     tot += sig[s][i]
             sig[s][t] = tot
     return d, sig
+
+
+# ---------------------------------------------------------------- large graphs (above 1024 nodes)
+def _sssp_counts(adj, s, weighted):
+    """Dijkstra from s over adj {u: [(v, cost)]} (cost 1 in hop-count mode): distances, numbers of shortest
+    paths, predecessor lists and the settle order"""
+    import heapq
+    dist, sigma, pred, order = {s: 0}, {s: 1}, {s: []}, []
+    done = set()
+    heap = [(0, s)]
+    while heap:
+        d, u = heapq.heappop(heap)
+        if u in done:
+            continue
+        done.add(u)
+        order.append(u)
+        for v, c in adj.get(u, ()):
+            nd = d + (c if weighted else 1)
+            if v not in dist or nd < dist[v]:
+                dist[v], sigma[v], pred[v] = nd, sigma[u], [u]
+                heapq.heappush(heap, (nd, v))
+            elif nd == dist[v] and v not in done:
+                sigma[v] += sigma[u]
+                pred[v].append(u)
+    return dist, sigma, pred, order
+
+
+def _adj_of(nodes, w):
+    adj = {}
+    for (u, v), wt in w.items():
+        if u != v:
+            adj.setdefault(u, []).append((v, wt))
+    return adj
+
+
+def brandes_fast(nodes, w, weighted, directed, normalized):
+    """betweenness by Brandes' algorithm in Python (integer costs, float dependencies): the definitional
+    oracle for graphs too large for the exact all-pairs enumeration"""
+    adj = _adj_of(nodes, w)
+    bc = {x: 0.0 for x in nodes}
+    for s in nodes:
+        dist, sigma, pred, order = _sssp_counts(adj, s, weighted)
+        delta = {x: 0.0 for x in order}
+        for x in reversed(order):
+            for p_ in pred[x]:
+                delta[p_] += sigma[p_] / sigma[x] * (1.0 + delta[x])
+            if x != s:
+                bc[x] += delta[x]
+    n = len(nodes)
+    out = {}
+    for x in nodes:
+        if normalized:
+            out[x] = bc[x] / ((n - 1) * (n - 2)) if n > 2 else bc[x]
+        else:
+            out[x] = bc[x] if directed else bc[x] / 2
+    return out
+
+
+def closeness_fast(nodes, w, weighted, wf):
+    """closeness from INCOMING distances (search on the transposed adjacency), large graphs"""
+    radj = {}
+    for (u, v), wt in w.items():
+        if u != v:
+            radj.setdefault(v, []).append((u, wt))
+    n = len(nodes)
+    out = {}
+    for x in nodes:
+        dist, _, _, _ = _sssp_counts(radj, x, weighted)
+        r_ = len(dist)
+        tot = sum(dist.values())
+        if r_ <= 1 or n <= 1:
+            out[x] = 0.0
+        else:
+            val = (r_ - 1) / tot
+            if wf:
+                val *= (r_ - 1) / (n - 1)
+            out[x] = val
+    return out
+
+
+def huge_case(r2, cid):
+    """one graph above 1024 nodes (a size no other generator reaches): ring or path plus a few chords"""
+    n = 1025 + r2.below(80)
+    directed = r2.below(2)
+    names = r2.shuffle(list(range(1, n + 1)))
+    edges = [(names[j], names[j + 1], 1 + r2.below(3)) for j in range(n - 1)]
+    if r2.below(2):
+        edges.append((names[-1], names[0], 1 + r2.below(3)))
+    for _ in range(20):
+        a, b = r2.pick(names), r2.pick(names)
+        if a != b:
+            edges.append((a, b, 1 + r2.below(3)))
+    return {"id": cid, "spec": (directed, 0, 1, 2, 0, 1), "nodes": names, "edges": edges, "nomodel": True}
+
